@@ -34,4 +34,9 @@ CHECKS = {
                 technique='bounded-exhaustive grammar enumeration of Snappy/LZ4 streams and differential checking against strict reference decoders',
                 text='(a) every stream carquet compresses from the C09 small-scope inputs is decoded by strict reference decoders written from the format documents (LZ4 including end-of-block rules); (b) every valid stream of up to 4/5 elements over element alphabets covering all tag kinds, length forms, offsets and overlapping copies is generated together with its expected output and fed to carquet; (c) the invalid classes (zero offset, offset beyond output, truncation, preamble mismatch, trailing elements) are derived from every generated stream and must be rejected. The reference decoder is the judge in both directions.',
                 note='Trusts /verif/ref/ref_lz.c (cross-checked against the generator on every generated stream). Streams are bounded to 5 elements; literal payload content is a fixed tagged pattern.'),
+    'C20': dict(harness='hash', mode='c20', variant='fast2', category='exploration',
+                quick_deadline=200, thorough_deadline=1500, ldlibs=[],
+                technique='bounded-exhaustive enumeration against reference XXH64 and split-block Bloom filter implementations',
+                text='XXH64 is compared with a reference written from its specification for every length 0..100/300, every single-bit message, 5 seeds and every alignment; the Bloom filter is driven with every subset of a 12-value pool for each value type and four filter sizes, and its bit array must be identical to the Parquet split-block algorithm, have no false negatives, survive write/read and merge to a superset of the union.',
+                note='Trusts ref_xxh64/ref_sbbf (published vectors checked in bin/selftest). Guard-paged message buffers detect over-reads of the hash.'),
 }
